@@ -453,8 +453,27 @@ pub fn config_histories(seed: u64, n: usize, max_ops: u64) -> RunOut {
         m.c.run(format!("new W {SEED_HEX}"));
         for (name, opt) in MIRRORS.iter() { m.c.sim.exec(&format!("new {name} {SEED_HEX} {opt}")); m.c.sim.history.pop(); }
         m.c.run("newr R W".into());
-        for (name, _) in MIRRORS.iter() { m.c.sim.exec(&format!("newr R{name} {name}")); m.c.sim.history.pop(); }
+        for (name, opt) in MIRRORS.iter() { m.c.sim.exec(&format!("newr R{name} {name} {opt}")); m.c.sim.history.pop(); }
         m.last_proof = vec![None; MIRRORS.len()];
+        // half of the histories start with a larger log, read back from storage, and a sparse replica
+        if r.chance(1, 2) {
+            let n0 = r.range(21, 90);
+            m.run(format!("fill W {n0} {}", r.below(200)));
+            m.run("reopen W".into());
+            for _ in 0..r.range(4, 14) { let i = match r.below(3) { 0 => r.below(5), 1 => 20 * r.below(4) + r.below(2), _ => r.below(n0) }; m.run(format!("get W {}", i.min(n0 - 1))); }
+            // the replica takes a far block together with the upgrade, then asks what it is missing
+            let far = n0 - 1 - r.below(3);
+            let o = m.run(format!("prove W {far}:0 - - 0:{n0}"));
+            if o.starts_with("ok fork") { let t = crate::sim::proof_full_txt(m.c.sim.proof.as_ref().unwrap()); m.run(format!("applyp R {t}")); }
+            for i in [0u64, 1, n0 / 2, far.saturating_sub(1)] { m.run(format!("missing R {i}")); m.run(format!("missingt R {}", 2 * i + 1)); }
+            for _ in 0..r.range(2, 6) {
+                let i = r.below(n0);
+                let o = m.run(format!("missing R {i}"));
+                let nn: u64 = o.strip_prefix("ok ").and_then(|x| x.parse().ok()).unwrap_or(0);
+                let o = m.run(format!("prove W {i}:{nn} - - -"));
+                if o.starts_with("ok fork") { let t = crate::sim::proof_full_txt(m.c.sim.proof.as_ref().unwrap()); m.run(format!("applyp R {t}")); m.run("probe R".into()); }
+            }
+        }
         let nops = r.range(4, max_ops);
         for _ in 0..nops {
             let wl = m.c.sim.h["W"].oracle.len;
@@ -560,6 +579,7 @@ pub fn readonly_histories(seed: u64, n: usize, max_ops: u64, with_crash: bool) -
             c.run(line);
         }
         c.run(format!("secretscan W {SEED_HEX}"));
+        if r.chance(1, 3) { c.run("rebuild W 9d61b19deffd5a60ba844af492ec2cc44449c5697b326919703bac031cae7f60".to_string()); c.run("pk W".into()); c.run("probe W".into()); }
         c.run("ro W".into());
         if with_crash { c.crash_points("W", Mode::Crash, &mut r, 0); }
         c.run(format!("secretscan W {SEED_HEX}"));
@@ -574,6 +594,11 @@ pub fn readonly_histories(seed: u64, n: usize, max_ops: u64, with_crash: bool) -
         c.run("probe W".into());
         c.run(format!("secretscan W {SEED_HEX}"));
         c.run("append W 63".into());
+        // building (not opening) on the existing storage with some key pair must keep the stored key and writability
+        c.run(format!("rebuild W {}", if r.chance(1, 2) { SEED_HEX } else { "9d61b19deffd5a60ba844af492ec2cc44449c5697b326919703bac031cae7f60" }));
+        c.run("pk W".into());
+        c.run("append W 64".into());
+        c.run("probe W".into());
         c.run("ro W".into());
         c.run("openkp W".into());
         for _ in 0..r.below(max_ops) { let len = c.sim.h["W"].oracle.len; let line = random_log_op(&mut r, len, false, true); c.run(line); }
@@ -581,6 +606,7 @@ pub fn readonly_histories(seed: u64, n: usize, max_ops: u64, with_crash: bool) -
         c.run("probe W".into());
         // a replica is read-only from the start
         c.run("newr R W".into()); c.run("pk R".into()); c.run("append R 00".into()); c.run("ro R".into()); c.run("probe R".into());
+        c.run(format!("rebuild R {SEED_HEX}")); c.run("pk R".into()); c.run("append R 01".into()); c.run("probe R".into());
         c.end_history();
     }
     c.out
@@ -789,12 +815,16 @@ pub fn layout_histories(seed: u64, n: usize, max_ops: u64) -> RunOut {
         c.run(format!("new W {SEED_HEX}"));
         c.run("newr R W".into());
         c.readfiles("W");
+        // a clear deletes data at once: an unflushed clear entry cannot be "un-done" by flagging it partial
+        let mut clear_since_flush = false;
         for _ in 0..r.range(3, max_ops) {
             let wl = c.sim.h["W"].oracle.len; let rl = c.sim.h["R"].oracle.len;
             if r.chance(2, 3) || wl == 0 {
                 let line = random_log_op(&mut r, wl, false, true);
                 let mutating = line.starts_with("append") || line.starts_with("batch") || line.starts_with("clear") || line.starts_with("ro ");
+                let is_clear = line.starts_with("clear");
                 c.run(line);
+                if mutating { if c.sim.h["W"].unflushed_entries == 0 { clear_since_flush = false; } else if is_clear { clear_since_flush = true; } }
                 if mutating { c.readfiles("W"); }
             } else {
                 let behind = rl < wl;
@@ -838,17 +868,33 @@ pub fn layout_histories(seed: u64, n: usize, max_ops: u64) -> RunOut {
                 let want = if expect_now.len() > 600 { format!("{} ## {:016x}", expect_now.split(" ::").next().unwrap(), fnv(&expect_now)) } else { expect_now.clone() };
                 if got != want { c.out.failures.push(Failure { key: format!("js-layout-wrong-state:{kind}"), detail: format!("storage re-encoded as [{kind}] opens to [{}], expected [{}]", crate::sim::trunc(&got), crate::sim::trunc(&want)), line }); }
             }
-            // trailing partial entries are dropped: mark the last k entries partial, expect the state k operations ago
+            // trailing partial entries (an unfinished atomic batch) are dropped
             if !o.entries.is_empty() {
-                let mut x = o.clone();
-                let n = x.entries.len();
-                x.entries[n - 1].partial = true;
-                let bytes = crate::jslayout::render(&x);
-                let out = c.run(format!("openfiles V {} {} {} {}", hexfull(&f[0]), hexfull(&f[1]), hexfull(&f[2]), hexfull(&bytes)));
-                *c.out.stats.entry("synthetic_trailing-partial".into()).or_insert(0) += 1;
-                let line = c.sim.line;
-                if !out.starts_with("ok") { c.out.failures.push(Failure { key: "js-layout-not-opened:trailing-partial".into(), detail: format!("a storage whose last log entry is flagged partial (unfinished atomic batch) was answered with {out}"), line }); }
-                else { c.sim.check_oracle = false; c.run("probe V".into()); c.sim.check_oracle = true; }
+                let n = o.entries.len();
+                let last_wrote_entry = c.sim.h["W"].last_journal.iter().any(|op| matches!(op, Op::Write(3, off, _) if *off >= 8192)) && !c.sim.h["W"].last_journal.iter().any(|op| matches!(op, Op::Trunc(3, _)));
+                let shapes: Vec<(&str, Vec<bool>, Option<crate::sim::Oracle>)> = vec![
+                    ("last-partial", (0..n).map(|i| i == n - 1).collect(), if last_wrote_entry { Some(c.sim.h["W"].prev_oracle.clone()) } else { None }),
+                    ("all-partial", vec![true; n], Some(c.sim.h["W"].flushed_oracle.clone())),
+                    ("partial-then-complete", (0..n).map(|i| i + 1 < n).collect(), if n >= 2 { Some(c.sim.h["W"].oracle.clone()) } else { None }),
+                ];
+                for (kind, flags, expect) in shapes {
+                    if kind == "partial-then-complete" && n < 2 { continue; }
+                    let mut x = o.clone();
+                    for (e, p) in x.entries.iter_mut().zip(flags.iter()) { e.partial = *p; }
+                    let bytes = crate::jslayout::render(&x);
+                    let out = c.run(format!("openfiles V {} {} {} {}", hexfull(&f[0]), hexfull(&f[1]), hexfull(&f[2]), hexfull(&bytes)));
+                    *c.out.stats.entry(format!("synthetic_{kind}")).or_insert(0) += 1;
+                    let line = c.sim.line;
+                    if !out.starts_with("ok") { c.out.failures.push(Failure { key: format!("js-layout-not-opened:{kind}"), detail: format!("a storage whose log entries are flagged [{kind}] (unfinished atomic batch) was answered with {out}"), line }); continue; }
+                    c.sim.check_oracle = false; let got = c.run("probe V".into()); c.sim.check_oracle = true;
+                    if let Some(e) = expect {
+                        if clear_since_flush && kind != "partial-then-complete" { continue; }
+                        let idx2 = crate::sim::probe_indices(e.len);
+                        let w = e.probe_string(&idx2);
+                        let want = if w.len() > 600 { format!("{} ## {:016x}", w.split(" ::").next().unwrap(), fnv(&w)) } else { w };
+                        if got != want { c.out.failures.push(Failure { key: format!("js-layout-wrong-state:{kind}"), detail: format!("storage whose entries are flagged [{kind}] opens to [{}], expected [{}]", crate::sim::trunc(&got), crate::sim::trunc(&want)), line }); }
+                    }
+                }
             }
         }
         c.end_history();
